@@ -48,7 +48,8 @@ Inductive res :=
 | RBytes (b : list Z)
 | RBool (b : bool)
 | RParseFloat (w : Z) (s : list Z)   (* strconv.ParseFloat: opaque *)
-| RFmtFloat (w : Z) (fbits : Z).     (* strconv.FormatFloat: opaque *)
+| RFmtFloat (w : Z) (fbits : Z)      (* strconv.FormatFloat: opaque *)
+| RJsonScan (data : list Z).         (* JSONScan: json.Unmarshal of these bytes into the target: opaque *)
 
 (* ---- model of strconv.ParseUint / ParseInt, base 10 ---- *)
 Definition is_digit (c : Z) : bool := (48 <=? c) && (c <=? 57).
@@ -108,7 +109,8 @@ Inductive aty := AsI (k : ikind) | AsF32 | AsF64 | AsStr | AsBytes.
 Inductive acc :=
 | AExact (t : ty)
 | AAs (t : aty)
-| AOrDef (t : ty) (d : res).
+| AOrDef (t : ty) (d : res)
+| AJsonScan.                        (* JSONScan(val): data, err := av.AsBytes(); if err != nil return err; json.Unmarshal(data, val) *)
 
 (* val, ok := av.Val.(T) *)
 Definition exact (t : ty) (v : held) : outcome res :=
@@ -181,6 +183,14 @@ Section WithBits.
       | Ok r => Ok r
       | _ => Ok d
       end
+    | AJsonScan =>
+      if has_err av then Err EStored
+      else match as_ AsBytes (val av) with
+           | Ok (RBytes b) => Ok (RJsonScan b)
+           | Ok _ => Err EOther
+           | Err e => Err e
+           | Panic => Panic
+           end
     end.
 End WithBits.
 
